@@ -187,9 +187,28 @@ func (rt *runtime) cmplEvaluateNodeForInStatement(node *nodeForInStatement) Valu
 
 	result := emptyValue
 	obj := sourceObject
+	// 12.6.4: a property of a prototype is not enumerated when an object earlier in
+	// the chain has a property (enumerable or not) with the same name, and no name
+	// is visited more than once.
+	var visited map[string]struct{}
 	for obj != nil {
 		enumerateValue := emptyValue
+		current := obj
 		obj.enumerate(false, func(name string) bool {
+			if _, found := visited[name]; found {
+				return true
+			}
+			for earlier := sourceObject; earlier != current; earlier = earlier.prototype {
+				if earlier.hasOwnProperty(name) {
+					return true
+				}
+			}
+			if current.prototype != nil {
+				if visited == nil {
+					visited = make(map[string]struct{})
+				}
+				visited[name] = struct{}{}
+			}
 			into := rt.cmplEvaluateNodeExpression(into)
 			// In the case of: for (var abc in def) ...
 			if into.reference() == nil {
